@@ -39,15 +39,24 @@ thread_local! { static NIDS: std::cell::Cell<u8> = std::cell::Cell::new(3); }
 
 /// the array under test plus a second flattened array holding every other id, so that no object is ever deleted
 /// (read() drops entries of deleted objects, which would mask a stale order)
+/// the version "the array is not part of the document" (its descriptor object gets deleted)
+const ABSENT: u8 = 255;
+fn is_absent(a: &[u8]) -> bool {
+    a.len() == 1 && a[0] == ABSENT
+}
 fn doc(a: &[u8]) -> Map<String, Value> {
     let obj = |c: &u8| {
         let id = ((b'a' + c) as char).to_string();
         json!({"_id": id, "v": id})
     };
-    let items: Vec<Value> = a.iter().map(obj).collect();
     let n = NIDS.with(|x| x.get());
     let rest: Vec<Value> = (0..n).filter(|c| !a.contains(c)).map(|c| obj(&c)).collect();
     let mut m = Map::new();
+    if is_absent(a) {
+        m.insert(REST.to_string(), Value::from(rest));
+        return m;
+    }
+    let items: Vec<Value> = a.iter().map(obj).collect();
     m.insert(KEY.to_string(), Value::from(items));
     m.insert(REST.to_string(), Value::from(rest));
     m
@@ -75,6 +84,15 @@ pub fn check(chain: &[Vec<u8>]) -> Result<(), String> {
         for (step, a) in ch.iter().enumerate() {
             replica.update(doc(a)).map_err(|e| format!("update #{}: {}", step + 1, e))?;
             let back = replica.read(None).map_err(|e| format!("read after update #{}: {}", step + 1, e))?;
+            if is_absent(a) {
+                if back.contains_key(KEY) {
+                    return Err(format!("after update #{} submitted a document without the array, read back {}", step + 1, Value::from(back)));
+                }
+                if step % 2 == 1 {
+                    replica.commit(None).map_err(|e| format!("commit: {}", e))?;
+                }
+                continue;
+            }
             let got = ids_of(&back).ok_or_else(|| format!("read after update #{}: array field missing: {}", step + 1, Value::from(back.clone())))?;
             if got != expect_ids(a) {
                 return Err(format!("after update #{} submitted {:?}, read back {:?}", step + 1, expect_ids(a), got));
@@ -88,6 +106,9 @@ pub fn check(chain: &[Vec<u8>]) -> Result<(), String> {
         let reopened = Melda::new(adapter.clone()).map_err(|e| format!("reopen: {}", e))?;
         let last = ch.last().unwrap();
         let back = reopened.read(None).map_err(|e| format!("read after reopen: {}", e))?;
+        if is_absent(last) {
+            return if back.contains_key(KEY) { Err(format!("after reopen expected a document without the array, read back {}", Value::from(back))) } else { Ok(()) };
+        }
         let got = ids_of(&back).ok_or_else(|| "read after reopen: array field missing".to_string())?;
         if got != expect_ids(last) {
             return Err(format!("after reopen expected {:?}, read back {:?}", expect_ids(last), got));
@@ -104,9 +125,39 @@ pub fn run(thorough: bool, _seed: u64) -> Report {
     let (n, maxlen, k) = if thorough { (4, 4, 3) } else { (3, 3, 3) };
     let mut rep = Report::new(
         "array_chain",
-        &format!("all chains of {} successive versions of a flattened array, each version a duplicate-free sequence over {} ids of length <= {}", k, n, maxlen),
+        &format!("all chains of {} successive versions of a flattened array, each version a duplicate-free sequence over {} ids of length <= {}; plus all chains of 4 versions over {{absent (array removed from the document)}} + sequences of length <= 2 over {} ids that contain a removal", k, n, maxlen, if thorough { 3 } else { 2 }),
         "exhaustive enumeration of chains; after every update() the read-back array must equal the submitted one, and again after commit + reopen; non-trivial = all consecutive versions differ",
     );
+    // family 2: chains in which the array is also REMOVED from the document and added again (possibly empty)
+    {
+        let (n2, k2) = if thorough { (3usize, 4usize) } else { (2usize, 4usize) };
+        NIDS.with(|x| x.set(n2 as u8));
+        let mut vs = arrays(n2, 2);
+        vs.push(vec![ABSENT]);
+        let mut idx = vec![0usize; k2];
+        'outer: loop {
+            let chain: Vec<Vec<u8>> = idx.iter().map(|i| vs[*i].clone()).collect();
+            if chain.iter().any(|a| is_absent(a)) && !is_absent(&chain[0]) {
+                let key = format!("{:?}", chain).replace("[255]", "absent");
+                rep.case(&key, chain.windows(2).all(|w| w[0] != w[1]));
+                if let Err(w) = check(&chain) {
+                    rep.fail(&format!("removed:{}", key), json!({"chain": chain, "n": n2}), &w);
+                }
+            }
+            let mut p = k2;
+            loop {
+                if p == 0 {
+                    break 'outer;
+                }
+                p -= 1;
+                idx[p] += 1;
+                if idx[p] < vs.len() {
+                    break;
+                }
+                idx[p] = 0;
+            }
+        }
+    }
     NIDS.with(|x| x.set(n as u8));
     let all = arrays(n, maxlen);
     let mut idx = vec![0usize; k];
